@@ -61,7 +61,8 @@ def split_item(node):
         times = node["times"]
     elif isinstance(body, dict) and "times" in body and name != "$deref":
         times = body["times"]
-        body = None
+        # an item's body that is {times: t} means "no operand list"; a group whose children are written as a mapping keeps them
+        body = {k: v for k, v in body.items() if k != "times"} if name in ("$and", "$or", "$and_any_order", "$not") else None
     if times is None:
         t = (1, 1)
     elif isinstance(times, int):
